@@ -5,7 +5,7 @@
    ExtrOCamlInt63 (Uint63 -> Uint63 of coq-core.kernel). Z, positive, nat stay
    the extracted inductive datatypes. *)
 Require Import ExtrOcamlBasic ExtrOcamlString ExtrOCamlFloats ExtrOCamlInt63.
-From SV Require Import Cxx Ops RngGen SortKey SortGen SortModel ArgsGen ArgsModel GlueGen LinAlg Givens HessQR TridiagQR DoubleShift.
+From SV Require Import Cxx Ops RngGen SortKey SortGen SortModel ArgsGen ArgsModel GlueGen LinAlg Givens HessQR TridiagQR DoubleShift Arnoldi.
 
 Definition rng_real_f (s : Z) := random_real OpsFloat s.
 Definition rng_complex_f (s : Z) := random_complex OpsFloat s.
@@ -23,4 +23,5 @@ Extraction "model.ml" next_long_rand seed_norm rng_real_f rng_complex_f
   herm_compute gen_compute herm_nev_adjusted gen_nev_adjusted herm_init gen_init
   herm_eigenvalues_count gen_eigenvalues_count herm_eigenvectors_cols gen_eigenvectors_cols
   arnoldi_factorize_from lanczos_factorize_from expand_basis_count herm_restart gen_restart
-  compute_rotation hqr_compute hqr_QtHQ apply_QtY apply_QY apply_QtY_mat apply_QY_mat apply_YQ apply_YQt OpsFloat tqr_compute tqr_QtHQ ds_compute ds_apply_QtY ds_apply_YQ.
+  compute_rotation hqr_compute hqr_QtHQ apply_QtY apply_QY apply_QtY_mat apply_QY_mat apply_YQ apply_YQt OpsFloat tqr_compute tqr_QtHQ ds_compute ds_apply_QtY ds_apply_YQ
+  Arnoldi.init arnoldi_factorize_from_k lanczos_factorize_from_k Arnoldi.compress_V identity.
